@@ -235,7 +235,14 @@ impl<K: OneRttKey> KeySet<K> {
         //# Endpoints MUST initiate a key update
         //# before sending more protected packets than the confidentiality limit
         //# for the selected AEAD permits.
-        if self.active_key().needs_update(&self.limits) {
+        //= https://www.rfc-editor.org/rfc/rfc9001#section-6.5
+        //# An endpoint MAY allow a period of approximately the Probe Timeout
+        //# (PTO; see [QUIC-RECOVERY]) after promoting the next set of receive
+        //# keys to be current before it creates the subsequent set of packet
+        //# protection keys.
+        // While the previous key update is still in progress the other slot holds the
+        // *previous* keys, not the next ones, so another update can't be initiated yet.
+        if self.active_key().needs_update(&self.limits) && !self.key_update_in_progress() {
             return KeyPhase::next_phase(self.key_phase());
         }
 
